@@ -14,6 +14,7 @@ import (
 	"sync"
 
 	"github.com/syndtr/goleveldb/leveldb"
+	"github.com/syndtr/goleveldb/leveldb/opt"
 	"github.com/syndtr/goleveldb/leveldb/storage"
 	"github.com/syndtr/goleveldb/leveldb/util"
 
@@ -50,6 +51,10 @@ var (
 	worldsMu sync.Mutex
 	worlds   = map[string]*World{}
 )
+
+// ldbOpts: small write buffer (the default 4 MiB buffer is zeroed on every open and dominates the
+// cost of a case); semantics are unchanged.
+var ldbOpts = &opt.Options{WriteBuffer: 256 * 1024, BlockCacheCapacity: 256 * 1024, DisableSeeksCompaction: true}
 
 // ErrInjected is returned by a write hit by fault injection.
 var ErrInjected = errors.New("verifmem: injected write error")
@@ -140,7 +145,7 @@ func (w *World) ImageAt(n int, dst string) (*World, error) {
 		}
 		st := storage.NewMemStorage()
 		nw.stores[name] = st
-		d, err := leveldb.Open(st, nil)
+		d, err := leveldb.Open(st, ldbOpts)
 		if err != nil {
 			return nil, err
 		}
@@ -202,7 +207,7 @@ func newMem(param *kvdb.KVParameter) (kvdb.Database, error) {
 		st = storage.NewMemStorage()
 		w.stores[name] = st
 	}
-	db, err := leveldb.Open(st, nil)
+	db, err := leveldb.Open(st, ldbOpts)
 	if err != nil {
 		return nil, err
 	}
